@@ -155,6 +155,25 @@ def rule_d(ctx):
     ctx.ob(R, f.qname, "harmonic = hmean of the same two neighbours", h_ok, "", f.node)
     ctx.ob(R, f.qname, "vocabulary {arithmetic, harmonic}, else raises", e_ok, "", f.node)
     ctx.ob(R, f.qname, "the averaged quantity is returned", am.has(f.node, "return face_qty") is not None, "", f.node)
+    # which cell value belongs to a face of orientation o: the scalar itself, component o of a vector, diagonal entry (o, o) of a tensor
+    cq = f.params[1]
+    arms = {}
+    for n in ast.walk(f.node):
+        if isinstance(n, ast.If) and f"len({cq}.shape)" in norm(n.test):
+            t = norm(n.test)
+            kind = "tensor" if f"{g}.dim + 2" in t else ("vector" if f"{cq}.shape[-1] == {g}.dim" in t and f"{g}.dim + 2" not in t else ("scalar" if f"len({cq}.shape) == {g}.dim" in t else None))
+            if kind:
+                arms[kind] = n.body
+    want = {
+        "scalar": ([f"single = {cq}.ravel('F')", f"flat_cell_qty = [single for _ in range({g}.dim)]"], [f"flat_cell_qty = [{cq}.ravel('F') for _ in range({g}.dim)]"]),
+        "vector": ([f"flat_cell_qty = [{cq}[..., i].ravel('F') for i in range({g}.dim)]"],),
+        "tensor": ([f"flat_cell_qty = [{cq}[..., i, i].ravel('F') for i in range({g}.dim)]"],),
+    }
+    for kind, forms in want.items():
+        body = arms.get(kind)
+        ok = body is not None and any(am.eq_block(body, list(fm)) for fm in forms)
+        ctx.ob(R, f.qname, f"{kind} cell quantity: orientation o reads {'the scalar' if kind == 'scalar' else ('component o' if kind == 'vector' else 'the diagonal entry (o, o)')}", ok,
+               str([norm(x)[:90] for x in (body or [])]), f.node)
     ctx.floor(R, 1)
 
 
@@ -177,6 +196,12 @@ def rule_e(ctx):
     m_ok = am.has(f.node, "self.mat = [sps.csc_matrix((data[col != -1], (rows[col != -1], col[col != -1])), shape=shape) for col in cols]")
     ctx.ob(R, f.qname, "'no face' entries are masked identically in data, rows and columns", m_ok is not None, "", f.node)
     ctx.ob(R, f.qname, "operator is square on faces", am.has(f.node, f"shape = ({g}.num_faces, {g}.num_faces)") is not None, str(am.show()), f.node)
+    tc = m.func(MOD, "FVTangentialFaceReconstruction.__call__")
+    amt = AM(tc)
+    nfl, cat = tc.params[1], tc.params[2]
+    ok = amt.has(tc.node, f"tf = [self.mat[d].dot({nfl}) for d in range(self.num_tangential_directions)]") is not None \
+        and amt.has(tc.node, f"if {cat}:\n    tf = np.concatenate(tf, axis=0)") is not None and amt.has(tc.node, "return tf") is not None
+    ctx.ob(R, tc.qname, "applying the operator: one block per tangential direction, blocks concatenated in direction order", ok, str(amt.show()), tc.node)
     r = m.func(MOD, "FVFullFaceReconstruction.__call__")
     am2 = AM(r)
     nf = r.params[1]
